@@ -31,6 +31,11 @@ def gen_jobs(seed, n):
             # on a real backend a worker only "dies" inside run(); a loaded task never gets there
             for t in c['pre']:
                 c['fl'][t] &= ~2
+        if be != 'serial' and i % 8 == 3:
+            # a successful task whose worker process lingers after run() returned: the coordinator must not wait for it
+            ok = [t for t in range(len(c['fl'])) if not (c['fl'][t] & 35) and any(tt == t for tt, _ in c['inst'])]
+            if ok:
+                c['fl'][rng.choice(ok)] |= 128
         jobs.append(dict(index=i, case=c, top=rng.random() < 0.5))
     return jobs
 
@@ -100,6 +105,9 @@ def monitor(case, rec):
     if st.startswith('HARNESS-ERROR'):
         return v
     any_fail = any(val[t] is None for t in closure)
+    if any(f & 128 for f in case['fl']) and rec['wall'] > 3.0:
+        v['C11'].append(f'real {be} run returned {rec["wall"]}s after start although its tasks take milliseconds: it waited for a worker process that outlives run()')
+        dist_note = True
     if case['cof'] or not any_fail:
         want = 'returned ' + ','.join(f'{t}:{val[t]}' for t in d['req_tids'] if val[t] is not None)
         if st != want:
@@ -175,6 +183,8 @@ def explore(seed, n, workers=12, timeout=300):
         dist[key] = dist.get(key, 0) + 1
         if any(f & 2 for f in case['fl']) and case['be'] != 'serial':
             dist['real_killed_worker'] = dist.get('real_killed_worker', 0) + 1
+        if any(f & 128 for f in case['fl']):
+            dist['real_lingering_worker'] = dist.get('real_lingering_worker', 0) + 1
         for pid, vs in monitor(case, r).items():
             for w in vs[:2]:
                 violations.append(dict(property=pid, what=w, case=case, line=line, real=real_projection(case, r), top=r['top']))
